@@ -129,6 +129,19 @@ def typestate(S, rep):
     rep.note("velocity_call_sites", n)
 
 
+def freshness(S, rep, rule):
+    """def-use over the interaction's evaluation entry points: derived buffers of a grid (arms, transposed directors, element
+    velocities ...) are recomputed from the body before they are read, so markers carry the CURRENT section kinematics"""
+    from .gridcases import stale_reads
+    for relfile, cls, dim in CASES:
+        derived, res = stale_reads(S.repo, relfile, cls, dim)
+        for m, (seq, bad) in sorted(res.items()):
+            rep.ob(rule, "%s %dD %s: derived buffers recomputed before use" % (cls, dim, m), not bad,
+                   "; ".join(bad[:3]) if bad else "call order %s; %d derived buffers, none read before it is rewritten" % ([x for x, _ in seq], len(derived)),
+                   key="%s|%s|%d|%s|stale|%s" % (rule, cls, dim, m, [b.split(" reads ")[1].split(" ")[0] for b in bad][:3]),
+                   sample={"grid": cls, "evaluation": m, "order": [x for x, _ in seq], "derived": derived}, nontrivial=bool(derived))
+
+
 def run(S, tier, rep):
     rep.rule_text = ("the position and velocity methods of every forcing-grid class are interpreted over one generic marker / element "
                      "(pointwise tensors of polynomials in symbols, frame-tagged); positions must equal the documented closed forms and "
@@ -140,5 +153,6 @@ def run(S, tier, rep):
     for relfile, cls, dim in CASES:
         check_case(S, rep, relfile, cls, dim)
     typestate(S, rep)
+    freshness(S, rep, "C09.b")
     rep.require_min("C09.a", 40)
-    rep.require_min("C09.b", 6)
+    rep.require_min("C09.b", 40)
